@@ -176,6 +176,7 @@ func generate() {
 	execLine("zone Pacific/Kiritimati") // UTC+14: another date than Taipei for most of the day
 	genRaces()
 	genReindex()
+	genPar()
 	execLine("zone Asia/Kathmandu") // UTC+5:45
 	genHolders()
 	execLine("zone Asia/Taipei")
@@ -596,6 +597,49 @@ func genFaults() {
 	execLine("fcomment 41" + strings.TrimPrefix(commentLine("ptt", "user", u, artName('M', 0), 1, []byte("x"), ip), "comment"))
 	execLine("fcomment x" + strings.TrimPrefix(commentLine("ptt", "user", u, artName('M', 0), 1, []byte("x"), ip), "comment"))
 	execLine("fcomment 3 ptt")
+}
+
+// many commenters at the same moment, each on its own article: different files, different locks, different
+// index entries - every entry must keep its identity and move by its own comments only
+func genPar() {
+	n, rounds, reps := 16, 10, 2
+	if run.Thorough() {
+		n, rounds, reps = 48, 40, 12
+	}
+	for rep := 0; rep < reps; rep++ {
+		var dir []byte
+		for k := 0; k < n; k++ {
+			sc := []int{0, 99, 100, -99, -100, 50, -50, 98}[k%8]
+			mode := byte(0)
+			if k%11 == 7 {
+				mode = byte(ptttype.FILE_MARKED | ptttype.FILE_SOLVED)
+			}
+			l := byte('M')
+			if k%13 == 5 {
+				l = 'G'
+			}
+			dir = append(dir, mkRec(artName(l, k), int8(sc), mode, k)...)
+		}
+		execLine(resetLine(attrOf(rep), rep%3 == 2, rep%2 == 0, []byte("body\n"), dir))
+		for _, t := range []int{1, 2, 3} {
+			execLine(fmt.Sprintf("par %d %d %s %d", rounds, t, hx.Hex(randText(20)), nextMtime()))
+		}
+		execLine(commentLine("ptt", "sysop", userArr("SYSOP", nil), artName('M', 0), 1, []byte("afterwards"), ipArr("1.1.1.1")))
+		execLine("dump")
+	}
+	// protocol edges: duplicate identities, an entry without article, bad numbers
+	var dup []byte
+	dup = append(dup, mkRec(artName('M', 1), 0, 0, 1)...)
+	dup = append(dup, mkRec(artName('G', 1), 0, 0, 1)...)
+	execLine(resetLine(0, false, false, []byte("x\n"), dup))
+	execLine("par 2 1 61 5")
+	execLine(resetLine(0, false, false, []byte("x\n"), dup[:recSz]))
+	execLine("par 0 1 61 5")
+	execLine("par 51 1 61 5")
+	execLine("par 2 1 61 0")
+	execLine("par 2 1 61 5")
+	execLine(fmt.Sprintf("file %s absent", hx.Hex([]byte(artName('M', 1)))))
+	execLine("par 2 1 61 5")
 }
 
 // random histories: 1-30 comments on 2-6 articles
